@@ -308,6 +308,47 @@ func ruleR104(c *Ctx) {
 					}
 					return true
 				})
+				// a slice that an enclosing callback got as a parameter belongs to whoever calls the callback (the iterator
+				// reuses its window buffer for every call): a producer that reads it later, when the list is iterated,
+				// sees whatever the buffer holds then
+				if bad == nil {
+					var badSlice *ast.Ident
+					ast.Inspect(lit.Body, func(y ast.Node) bool {
+						id, ok := y.(*ast.Ident)
+						if !ok || badSlice != nil {
+							return true
+						}
+						v, ok := info.Uses[id].(*types.Var)
+						if !ok || v.IsField() {
+							return true
+						}
+						if _, isSlice := v.Type().Underlying().(*types.Slice); !isSlice {
+							return true
+						}
+						if v.Pos() >= lit.Pos() && v.Pos() <= lit.End() {
+							return true
+						}
+						// a parameter of an enclosing function literal (a callback), not of the method that builds the list
+						for q := c.EnclosingFunc(lit); q != nil; q = c.EnclosingFunc(q) {
+							fl, ok := q.(*ast.FuncLit)
+							if !ok || fl.Type.Params == nil {
+								continue
+							}
+							for _, f := range fl.Type.Params.List {
+								for _, nm := range f.Names {
+									if info.Defs[nm] == v {
+										badSlice = id
+									}
+								}
+							}
+						}
+						return true
+					})
+					if badSlice != nil {
+						c.Violation(key, badSlice.Pos(), "the producer of a lazy list reads the slice %s, which an enclosing callback received as a parameter: the slice belongs to the caller of the callback (the iterator reuses one window buffer for all calls), and the producer runs later, whenever the list is iterated - a window that outlives the callback changes under its reader, and with a parallel stage behind it the buffer is read and written concurrently", badSlice.Name)
+						return true
+					}
+				}
 				if bad == nil {
 					c.OK(key, call.Pos(), "the producer uses no value stack from outside: closures are called on the stack of whoever iterates the list")
 				} else {
